@@ -98,6 +98,8 @@ class RecSubscriber:
             self.grant(sc['in_subscribe'])
         if sc.get('cancel_at') is not None:
             self._timers.append(self.world.loop.call_later(sc['cancel_at'], self._cancel_hop))
+        if sc.get('cancel_at_iter') is not None:
+            self.world.at_iter(sc['cancel_at_iter'], self.cancel)
         for dt, n in sc.get('extra', ()):
             self._timers.append(self.world.loop.call_later(dt, self.grant, n))
 
@@ -440,6 +442,7 @@ def make_handler_class():
                 if fut.done():
                     return
                 if mode == 'fail':
+                    world.rec('pub', ep=ep, iid=iid, role='responder', cb='resolve_error', src='future')
                     fut.set_exception(AppError('E%02d' % iid))
                 else:
                     world.rec('pub', ep=ep, iid=iid, role='responder', cb='emit', idx=0, src='future')
@@ -566,7 +569,9 @@ def start_interaction(world, ep_name, ia):
                 def cancel_hop():
                     world.loop.call_after_hops(cancel.get('hops', 0), do_cancel)
 
-                if cancel.get('at') is not None:
+                if cancel.get('at_iter') is not None:
+                    world.at_iter(cancel['at_iter'], do_cancel)
+                elif cancel.get('at') is not None:
                     world.loop.call_later(cancel['at'], cancel_hop)
                 else:
                     cancel_hop()
